@@ -29,7 +29,7 @@ import (
 	"verif/ref"
 )
 
-var c14Relations = []string{"behind", "equal", "ahead", "fork-ahead", "fork-same-txid", "fork-behind", "missing", "rolled-back", "big-batch", "after-drop", "after-retention"}
+var c14Relations = []string{"behind", "equal", "ahead", "fork-ahead", "fork-same-txid", "fork-behind", "missing", "rolled-back", "big-batch", "after-drop", "after-retention", "restart-retention"}
 var c14Faults = []string{"wrap-before", "wrap-mid", "wrap-lost-ack", "srv-503-before", "srv-500-after-store", "srv-close-after-store"}
 
 func init() {
@@ -470,7 +470,9 @@ func runC14(c *core.Case) {
 	mkTune := func(rec *c14Rec) func(*litefs.Store) {
 		return func(s *litefs.Store) {
 			rec.inner = svc.client(s)
-			rec.maxAcked = map[string]uint64{}
+			if rec.maxAcked == nil { // (kept across a restart: the service did acknowledge those)
+				rec.maxAcked = map[string]uint64{}
+			}
 			s.BackupClient = rec
 			s.BackupDelay = 0
 			if background {
@@ -909,6 +911,35 @@ func runC14(c *core.Case) {
 			}
 			time.Sleep(2 * time.Millisecond)
 			_ = P.n.Store.EnforceRetention(context.Background())
+		case "restart-retention":
+			// commits the service has not seen, a restart (the high-water mark is
+			// back to zero until the next acknowledgement), then a retention sweep:
+			// nothing the service lacks may be swept, so the next sync extends it
+			if err := commitN(P, 2+c.Rng.IntN(4)); err != nil {
+				c.Violate("C14/commit-failed", fmt.Sprintf("%s: %v", rel, err), detail(nil))
+				return
+			}
+			if P.w != nil {
+				P.w.close()
+				P.w = nil
+			}
+			cl.Stop(0)
+			if err := cl.Start(0); err != nil || cl.WaitPrimary(0, 10*time.Second) == nil {
+				c.Inconclusive(fmt.Sprintf("primary restart: %v", err))
+				return
+			}
+			P.n = cl.Nodes[0].Node
+			if healthViolations(c, P.n, "restart", detail(nil)) {
+				return
+			}
+			time.Sleep(3 * time.Millisecond)
+			_ = P.n.Store.EnforceRetention(context.Background())
+			if c.Rng.IntN(2) == 0 {
+				if err := commitN(P, 1+c.Rng.IntN(2)); err != nil {
+					c.Violate("C14/commit-failed", fmt.Sprintf("%s: %v", rel, err), detail(nil))
+					return
+				}
+			}
 		case "ahead":
 			if !extendViaShadow(1 + c.Rng.IntN(4)) {
 				return
@@ -954,13 +985,13 @@ func runC14(c *core.Case) {
 
 		// an upload fault on the first sync of some rounds
 		fault := ""
-		if c.Rng.IntN(3) == 0 && expect != "must" && rel != "equal" {
-			for {
-				fault = c14Faults[c.Rng.IntN(len(c14Faults))]
-				if kind == "cloud" || strings.HasPrefix(fault, "wrap-") {
-					break
-				}
+		if (c.Index/2+round)%2 == 0 && expect != "must" && rel != "equal" {
+			// fixed rotation (not the PRNG) so that every fault kind is met in every run
+			fs := c14Faults
+			if kind != "cloud" {
+				fs = c14Faults[:3]
 			}
+			fault = fs[(c.Index/4+round)%len(fs)]
 			hist = append(hist, "fault:"+fault)
 			before, _ := primaryState(P)
 			locksBefore := stableLocks(P)
